@@ -71,8 +71,39 @@ static int pct(const long P, const long n)
     return (sorted == expected && unsorted == expected) ? 0 : 1;
 }
 
+// mode `med v...`: the unsorted median() of the list (every rotation of it) against the sorted-array reference
+static int med(std::vector<double> values)
+{
+    auto sorted = values;
+    std::sort(sorted.begin(), sorted.end());
+    const auto   n        = sorted.size();
+    const double expected = (n % 2 == 1) ? sorted[n / 2] : (sorted[n / 2 - 1] + sorted[n / 2]) / 2;
+    int          bad      = 0;
+    for (size_t r = 0; r < n; ++r)
+    {
+        auto copy = values;
+        std::rotate(copy.begin(), copy.begin() + static_cast<std::ptrdiff_t>(r), copy.end());
+        auto         copy2 = copy;
+        const double got   = median(copy.data(), copy.data() + n);
+        const double gotp  = percentile(copy2.data(), copy2.data() + n, 50.0);
+        if (got != expected || gotp != expected)
+        {
+            ++bad;
+            std::printf("{\"rotation\": %zu, \"median\": %.17g, \"percentile50\": %.17g, \"expected\": %.17g}\n", r, got, gotp, expected);
+        }
+    }
+    std::printf("{\"mismatches\": %d}\n", bad);
+    return bad ? 1 : 0;
+}
+
 int main(int argc, char** argv)
 {
+    if (argc >= 3 && std::strcmp(argv[1], "med") == 0)
+    {
+        std::vector<double> v;
+        for (int i = 2; i < argc; ++i) v.push_back(std::strtod(argv[i], nullptr));
+        return med(v);
+    }
     if (argc == 4 && std::strcmp(argv[1], "pct") == 0)
     {
         return pct(std::atol(argv[2]), std::atol(argv[3]));
@@ -87,6 +118,21 @@ int main(int argc, char** argv)
             std::vector<tensor_size_t> v;
             for (int i = 4 + nt; i < argc; ++i) v.push_back(std::atoll(argv[i]));
             return hist(thr, v);
+        }
+        // narrow integer sample types: 'b' int8_t, 's' int16_t, 'w' int32_t
+        if (argv[2][0] == 'b' || argv[2][0] == 's' || argv[2][0] == 'w')
+        {
+            std::vector<int8_t>  v8;
+            std::vector<int16_t> v16;
+            std::vector<int32_t> v32;
+            for (int i = 4 + nt; i < argc; ++i)
+            {
+                const auto x = std::atoll(argv[i]);
+                v8.push_back(static_cast<int8_t>(x));
+                v16.push_back(static_cast<int16_t>(x));
+                v32.push_back(static_cast<int32_t>(x));
+            }
+            return argv[2][0] == 'b' ? hist(thr, v8) : argv[2][0] == 's' ? hist(thr, v16) : hist(thr, v32);
         }
         std::vector<double> v;
         for (int i = 4 + nt; i < argc; ++i) v.push_back(std::strtod(argv[i], nullptr));
